@@ -98,6 +98,8 @@ func c03Exhaustive(tier string) []any {
 	// ... and install ; upgrade ; rollback(faulted) x cleanup-on-fail / no-hooks
 	rbq := c12Op("rollback", 0, eng.Flags{}, nil)
 	out = append(out, c03Enumerate([]*eng.Op{i1, u2}, rbq, keys12, c03Hooks, flagCombos(false, true))...)
+	// histories with several faulted operations (c03_multi.go)
+	out = append(out, c03MultiExhaustive(tier)...)
 	if tier != "thorough" {
 		return out
 	}
@@ -124,12 +126,21 @@ func c03Exhaustive(tier string) []any {
 	return out
 }
 
-// c03Gen: random fault-free prefix, then one faulted install / upgrade / rollback
+// c03Gen: random prefix — fault-free (one half) or with a cluster fault of its own on every operation (the other
+// half, c03GenMulti) — then one faulted install / upgrade / rollback
 func c03Gen(r *rand.Rand) eng.History {
+	if r.Intn(2) == 0 {
+		return c03GenMulti(r)
+	}
 	h := eng.GenHistory(r, eng.GenOpts{Faults: false, ClusterOnly: true, Hooks: 3, Flags: true, MaxLen: 3})
 	if r.Intn(6) == 0 {
 		h.Steps = nil
 	}
+	return c03AppendFaulted(r, h)
+}
+
+// c03AppendFaulted: appends the operation under test with one fault position drawn uniformly
+func c03AppendFaulted(r *rand.Rand, h eng.History) eng.History {
 	var prevMs [][]eng.Res
 	var pool []eng.Hook
 	variant := 10
